@@ -52,6 +52,39 @@ def seq_handles(names, hmap):
     return ' '.join('+' if n == '+' else 'h%d' % hmap[n] for n in names)
 
 
+def name_boundaries(res):
+    """descriptions whose domain NAMES differ but read the same when written without separators (t xb / tx b, a 10 / a1 0)
+    are inequivalent: while one is alive the other is a different complex - created, unequal, other canonical form and hash key"""
+    from dsdobjects.base_classes import ComplexS, DomainS
+    from dsdobjects import clear_singletons, SingletonError
+    splits = [(['t', 'xb'], ['tx', 'b']), (['a', '10'], ['a1', '0']), (['d', 'd1'], ['dd', '1']), (['p', 'q-r'], ['p-q', '-r'])]
+    splits = [p for p in splits if len(p[0]) == len(p[1])]
+    frames = [([], '..'), (['+', 'y'], '..+.'), (['+', 'y'], '.(+)'), (['+', 'y', '+', 'y'], '(.+)+.')]
+    for first, second in splits:
+        for tail, sst in frames:
+            for a, b in ((first, second), (second, first)):
+                clear_singletons(ComplexS); clear_singletons(DomainS)
+                res.evaluations += 1
+                res.count('name_boundary_pairs')
+                desc = {'history': ['P = ' + ' '.join(a + tail), 'Q = ' + ' '.join(b + tail), sst]}
+                try:
+                    mk = lambda names: [x if x == '+' else DomainS(x, 5) for x in names]
+                    P = ComplexS(mk(a + tail), list(sst), name='P')
+                    try:
+                        Q = ComplexS(mk(b + tail), list(sst))
+                    except SingletonError as e:
+                        res.violation('inequivalent-identified:name-boundaries', desc, 'SingletonError existing=%r' % (getattr(e, 'existing', None),),
+                                      'a second complex (the descriptions are not rotations of each other)'); e = None
+                        del P
+                        continue
+                    if Q is P or Q == P or Q.canonical_form == P.canonical_form:
+                        res.violation('inequivalent-identified:name-boundaries', desc, 'Q is P: %s, Q == P: %s' % (Q is P, Q == P), 'two different complexes')
+                    del P, Q
+                except Exception as e:
+                    res.violation('name-boundaries:raises:' + type(e).__name__, desc, type(e).__name__, 'two complexes'); e = None
+    clear_singletons(ComplexS); clear_singletons(DomainS)
+
+
 def run(res, proof):
     rng = random.Random(res.seed * 15485863 + 2)
     iw = W.ImplWorld()
@@ -197,6 +230,7 @@ def run(res, proof):
                 res.count('other_structure_same_name')
                 lines += hl; impl += ho
     iw.reset()
+    name_boundaries(res)
     res.rule = ('every well-formed structure with non-empty strands up to %d positions / 4 strands (quick: a 35%% sample above 4 '
                 'characters) labelled over alphabets of 1, 2 and 3 names (all labellings when few, sampled otherwise), every rotation '
                 'as first presentation (<= 3 strands) and every rotation requested named / unnamed / under another name; random larger '
